@@ -303,6 +303,29 @@ static void check_sides(Ctx &c, const std::string &subj, const std::string &sep)
             }
         }
     }
+    // calls that omit the case mode: the default is case_sensitive
+    for (int form = 0; form < NFORMS; ++form) {
+        if (form == F_CHAR && sep.size() != 1) continue;
+        for (int op = BF; op <= AL; ++op) {
+            ST::string dflt, expl;
+            vf::Outcome o1 = vf::guard([&] {
+                const char8_t *u8 = reinterpret_cast<const char8_t *>(cz);
+                switch (op) {
+                case BF: dflt = form == F_CHAR ? s.before_first(ch) : form == F_CSTR ? s.before_first(cz) : form == F_STR ? s.before_first(ss) : s.before_first(u8); break;
+                case AF: dflt = form == F_CHAR ? s.after_first(ch) : form == F_CSTR ? s.after_first(cz) : form == F_STR ? s.after_first(ss) : s.after_first(u8); break;
+                case BL: dflt = form == F_CHAR ? s.before_last(ch) : form == F_CSTR ? s.before_last(cz) : form == F_STR ? s.before_last(ss) : s.before_last(u8); break;
+                default: dflt = form == F_CHAR ? s.after_last(ch) : form == F_CSTR ? s.after_last(cz) : form == F_STR ? s.after_last(ss) : s.after_last(u8); break;
+                }
+                expl = call_sep(op, form, s, ch, cz, ss, false);
+            });
+            VF_COUNT("ops");
+            VF_COUNT("validated");
+            if (o1.ok() && dflt != expl)
+                c.fail(strf("%s(%s):default-case-mode-is-not-case_sensitive", OPN[op], FORMN[form]),
+                       strf("%s(%s) on %s without a case mode gives %s, with case_sensitive %s", OPN[op], vf::vis(sep).c_str(), vf::vis(subj).c_str(),
+                            vf::vis(std::string(dflt.c_str(), dflt.size())).c_str(), vf::vis(std::string(expl.c_str(), expl.size())).c_str()));
+        }
+    }
     // overload agreement for the empty separator (non-empty forms agree through the common reference)
     if (sep.empty() && emptyok[F_CSTR] && emptyok[F_STR]) {
         VF_COUNT("validated");
